@@ -20,6 +20,14 @@ pub enum AlAnswer {
     Stall,
     /// Accept, then fall back to `to` (with error bit and code) after `polls` further status reads.
     AcceptThenFallBack { polls: u8, to: u8, code: u16 },
+    /// Accept, then fall back to `to` once `ticks` further datagrams (of any kind, addressed to
+    /// anyone) have passed through the device: the fall-back does not wait for the device's own
+    /// status to be read.
+    AcceptThenFallBackTimed { ticks: u8, to: u8, code: u16 },
+}
+
+thread_local! {
+    static AL_SEQ: std::cell::Cell<u64> = const { std::cell::Cell::new(0) };
 }
 
 #[derive(Clone, Debug)]
@@ -77,7 +85,12 @@ pub struct Device {
     pub al_script: BTreeMap<u8, AlAnswer>,
     al_pending: Option<(u8, u8)>,
     al_fallback: Option<(u8, u8, u16)>,
+    al_fallback_ticks: Option<(u8, u8, u16)>,
     pub al_requests: Vec<u8>,
+    /// every change of the AL status register: (global sequence number, new status byte)
+    pub al_changes: Vec<(u64, u8)>,
+    /// every read of the AL status register: (global sequence number, status byte reported)
+    pub al_reads: Vec<(u64, u8)>,
     /// open ports [p0, p1, p2, p3]
     pub ports: [bool; 4],
     /// DL status override (for the inconsistent-report clause of C17)
@@ -125,6 +138,9 @@ impl Device {
             al_script: BTreeMap::new(),
             al_pending: None,
             al_fallback: None,
+            al_fallback_ticks: None,
+            al_changes: Vec::new(),
+            al_reads: Vec::new(),
             al_requests: Vec::new(),
             ports: [true, true, false, false],
             dl_status_override: None,
@@ -243,6 +259,12 @@ impl Device {
         }
         if overlaps(addr, len, R_AL_STATUS, 2) {
             self.al_poll();
+            let seq = AL_SEQ.with(|c| {
+                let v = c.get() + 1;
+                c.set(v);
+                v
+            });
+            self.al_reads.push((seq, self.mem[R_AL_STATUS]));
         }
         if overlaps(addr, len, R_SII_CTRL, 2) {
             self.sii_poll();
@@ -351,7 +373,26 @@ impl Device {
         true
     }
 
+    /// Record the AL status register if it changed (the sequence numbers of all devices of a thread
+    /// are totally ordered, so that "all members were in the state at the same instant" can be decided).
+    fn log_al(&mut self) {
+        let now = self.mem[R_AL_STATUS];
+        if self.al_changes.last().map(|c| c.1) != Some(now) {
+            let seq = AL_SEQ.with(|c| {
+                let v = c.get() + 1;
+                c.set(v);
+                v
+            });
+            self.al_changes.push((seq, now));
+        }
+    }
+
     fn al_request(&mut self, req: u16) {
+        self.al_request_inner(req);
+        self.log_al();
+    }
+
+    fn al_request_inner(&mut self, req: u16) {
         let target = (req & 0x0f) as u8;
         let ack = req & 0x10 != 0;
         self.al_requests.push(target);
@@ -361,6 +402,7 @@ impl Device {
             self.mem[R_AL_CODE + 1] = 0;
         }
         self.al_fallback = None;
+        self.al_fallback_ticks = None;
         match self.al_script.get(&target).cloned().unwrap_or(AlAnswer::Accept { polls: 0 }) {
             AlAnswer::Accept { polls } => {
                 if polls == 0 {
@@ -383,10 +425,34 @@ impl Device {
                 self.al_pending = None;
                 self.al_fallback = Some((polls, to, code));
             }
+            AlAnswer::AcceptThenFallBackTimed { ticks, to, code } => {
+                self.mem[R_AL_STATUS] = (self.mem[R_AL_STATUS] & 0x10) | target;
+                self.al_pending = None;
+                self.al_fallback_ticks = Some((ticks, to, code));
+            }
         }
     }
 
     fn al_poll(&mut self) {
+        self.al_poll_inner();
+        self.log_al();
+    }
+
+    /// One datagram passed through the device (whoever it was addressed to).
+    pub fn tick(&mut self) {
+        if let Some((left, to, code)) = self.al_fallback_ticks {
+            if left == 0 {
+                self.mem[R_AL_STATUS] = 0x10 | to;
+                self.mem[R_AL_CODE..R_AL_CODE + 2].copy_from_slice(&code.to_le_bytes());
+                self.al_fallback_ticks = None;
+                self.log_al();
+            } else {
+                self.al_fallback_ticks = Some((left - 1, to, code));
+            }
+        }
+    }
+
+    fn al_poll_inner(&mut self) {
         if let Some((target, left)) = self.al_pending {
             if left <= 1 {
                 self.mem[R_AL_STATUS] = (self.mem[R_AL_STATUS] & 0x10) | target;
@@ -548,6 +614,11 @@ pub struct Segment {
     pub frame_log: Vec<Vec<Dg>>,
     /// global time at which the port-time latch frame enters device 0 (else the running clock)
     pub latch_time_override: Option<u64>,
+    /// What the receive-time registers of ports that are not open hold after a latch: `None` = 0;
+    /// `Some(d)` = the (local, 32 bit) time `d` ns *before* this device's entry time, i.e. a value
+    /// left over from an earlier latch when the port still had a link. A real ESC only latches the
+    /// ports a frame comes in through.
+    pub closed_port_stale: Option<u64>,
 }
 
 #[derive(Clone, Debug)]
@@ -590,6 +661,7 @@ impl Segment {
             keep_logs: false,
             frame_log: Vec::new(),
             latch_time_override: None,
+            closed_port_stale: None,
         };
         s.apply_chain_ports();
         s
@@ -678,6 +750,9 @@ impl Segment {
 
     fn datagram(&mut self, cmd: u8, adp: &mut u16, ado: u16, data: &mut [u8], wkc: &mut u16, frame_no: u64) {
         let n = self.devices.len();
+        for d in self.devices.iter_mut() {
+            d.tick();
+        }
         let len = data.len();
         match cmd {
             0 => {}
@@ -921,7 +996,14 @@ impl Segment {
         for i in 0..n {
             let off = self.devices[i].dc.clock_offset;
             for p in 0..4 {
-                self.devices[i].port_times[p] = if times[i][p] == 0 && p != 0 { 0 } else { times[i][p].wrapping_add(off) };
+                self.devices[i].port_times[p] = if times[i][p] == 0 && p != 0 {
+                    match self.closed_port_stale {
+                        None => 0,
+                        Some(d) => times[i][0].wrapping_add(off).wrapping_sub(d.wrapping_mul(p as u64)),
+                    }
+                } else {
+                    times[i][p].wrapping_add(off)
+                };
             }
         }
     }
@@ -945,6 +1027,7 @@ impl Segment {
             keep_logs: false,
             frame_log: Vec::new(),
             latch_time_override: None,
+            closed_port_stale: None,
         };
         for _ in 0..self.devices.len() {
             me.devices.push(Device::new(Vec::new()));
